@@ -15,9 +15,16 @@ MIR = _build.os.path.join(_build.BUILD, 'crate.mir')
 _INTERP = {}
 
 
-def get_interp(mir=MIR):
+# modules that are thin wrappers over FFI and are never instantiated by a harness; their impls are kept out of
+# trait-method resolution in the 'full' dump (sqlite's Txn vs. the in-memory Txn)
+FULL_EXCLUDE = r'src/storage/(sqlite/inner|send_wrapper/)'
+
+
+def get_interp(mir=None, variant='core'):
+    if mir is None:
+        mir = MIR if variant == 'core' else _build.mir_path(variant)
     if mir not in _INTERP:
-        _INTERP[mir] = Interp(mir, repo=_build.REPO)
+        _INTERP[mir] = Interp(mir, repo=_build.REPO, exclude_files=FULL_EXCLUDE if variant != 'core' else None)
     return _INTERP[mir]
 
 
